@@ -990,7 +990,8 @@ def readGraph(input_file,
             G = networkx.read_gml((line.encode('ascii')
                                   for line in input_file), label='id')
             G = graph_class.normalize(G)
-        except networkx.NetworkXError as errmsg:
+        except (networkx.NetworkXError, TypeError, IndexError) as errmsg:
+            # malformed files, or a graph of the wrong (un)directed type
             raise ValueError("[Parse error in GML input] {} ".format(errmsg))
         except UnicodeEncodeError as errmsg:
             raise ValueError(
